@@ -60,6 +60,10 @@ func sortedKeys[V any](m map[string]V) []string {
 	return k
 }
 
+// timingExact: the check that runs uses the fine-grained simulated clock (C20
+// coarsens it; then recorded times are rounded down and cannot bracket).
+var timingExact = true
+
 // compareAudit compares a record with the reference lineage, recursively.
 // where: human-readable location. top: this is the record of the file itself.
 func compareAudit(r *AuditRec, lin *Lin, ex *Expect, insts map[string]*simrt.OpInst, where string, top string, self string) (string, string) {
@@ -125,6 +129,18 @@ func compareAudit(r *AuditRec, lin *Lin, ex *Expect, insts map[string]*simrt.OpI
 	}
 	if r.ExecTimeNS < 0 {
 		return "audit-timing", fmt.Sprintf("%s: negative duration %d", where, r.ExecTimeNS)
+	}
+	if d := r.FinishTime.Sub(r.StartTime); int64(d) != r.ExecTimeNS {
+		return "audit-timing", fmt.Sprintf("%s: duration %d ns recorded, FinishTime - StartTime is %d ns", where, r.ExecTimeNS, int64(d))
+	}
+	// faithful timing: the recorded interval contains the execution of the command
+	// (on the simulated clock; only where the clock is not coarsened)
+	// (the file's own record only: a nested record may stem from an earlier
+	// execution of the ancestor, the one the kept descendant really consumed)
+	if o := insts[lin.TaskKey]; o != nil && top != "" && timingExact && o.StartAbs > 0 && o.EndAbs >= o.StartAbs {
+		if r.StartTime.UnixNano() > o.StartAbs || r.FinishTime.UnixNano() < o.EndAbs {
+			return "audit-timing", fmt.Sprintf("%s: recorded interval [%d, %d] (unix ns) does not contain the execution of the command [%d, %d]", where, r.StartTime.UnixNano(), r.FinishTime.UnixNano(), o.StartAbs, o.EndAbs)
+		}
 	}
 	// upstream: keyed by input path, complete, recursively faithful
 	gotK, wantK := sortedKeys(r.Upstream), sortedKeys(lin.Upstream)
